@@ -19,7 +19,8 @@
 //! initial value of the forwarding-pointer words (`w0`) and of the five metadata bytes — i.e. the
 //! initial field of EVERY object of the group and the bits of the objects that are not raced.
 //! `<seed>` 0 leaves the yield points unarmed (pure real parallelism). The copy made by thread `t` of
-//! object `j` is `new:<1 + 64·j + t>`.
+//! object `j` is `new:<1 + 64·j + t>`. A race that does not finish within 10 s answers `hang` (and so does every later
+//! group race of the process: the stuck threads cannot be killed).
 use super::cell::{addr, cas_call, init, new_addr, obj_addr, oref, rd64, rd8, side_specs, trace_copy, trace_immix, wr64, wr8, NEW, ST, WIN};
 use super::vms::{CVm, COPIES_AT, NEXT_COPY};
 use crate::proto::*;
@@ -42,7 +43,7 @@ impl SpinBarrier {
     pub fn new(n: usize) -> Self {
         SpinBarrier { n, count: AtomicUsize::new(0), gen: AtomicUsize::new(0) }
     }
-    /// `false`: gave up after 30 s (a peer is stuck).
+    /// `false`: gave up after 10 s (a peer is stuck).
     pub fn wait(&self) -> bool {
         let g = self.gen.load(Ordering::SeqCst);
         if self.count.fetch_add(1, Ordering::SeqCst) + 1 == self.n {
@@ -56,7 +57,7 @@ impl SpinBarrier {
             spins += 1;
             if spins % 512 == 0 {
                 std::thread::yield_now();
-                if spins % (512 * 64) == 0 && t0.elapsed() > Duration::from_secs(30) {
+                if spins % (512 * 64) == 0 && t0.elapsed() > Duration::from_secs(10) {
                     return false;
                 }
             } else {
@@ -66,6 +67,11 @@ impl SpinBarrier {
         true
     }
 }
+
+/// Set once a race did not finish (a thread is stuck inside mmtk-core, e.g. spinning on BEING_FORWARDED
+/// for ever): the stuck threads cannot be killed, so every later group race of this process answers
+/// `hang` at once instead of waiting again.
+static HUNG: AtomicBool = AtomicBool::new(false);
 
 const PANICKED: usize = usize::MAX - 1;
 const UNSET: usize = usize::MAX;
@@ -159,6 +165,9 @@ fn run_rounds(
     mut before: impl FnMut(),
     mut collect: impl FnMut(&Shared),
 ) -> bool {
+    if HUNG.load(Ordering::SeqCst) {
+        return false;
+    }
     let sh = Arc::new(Shared {
         start: SpinBarrier::new(nt + 1),
         end: SpinBarrier::new(nt + 1),
@@ -204,6 +213,7 @@ fn run_rounds(
         }
         if !sh.start.wait() || !sh.end.wait() {
             ok = false;
+            HUNG.store(true, Ordering::SeqCst);
             break;
         }
         collect(&sh);
